@@ -11,13 +11,18 @@ What is mirrored (and where):
   `CacheSize <= 0` selects `nopTxCache` (Push always true, nothing stored).
 * `CheckTxWithInfo` (l.217): full check (`memSize >= Size || txSize+txsBytes >
   MaxPendingTxsBytes`) → too-large check (`txSize > maxTxBytes`) → cache push
-  (→ ErrTxInCache) → app; `resCbFirstTime` (l.378): ok ⇒ `addTx` (PushBack,
-  `txsMap.Store`, `txsBytes +=`), error ⇒ `cache.Remove`.
+  (→ ErrTxInCache) → app; `resCbFirstTime` (l.378): ok ⇒ (`txsMap.Load` hit ⇒
+  return) else `addTx` (PushBack, `txsMap.Store`, `txsBytes +=`), error ⇒
+  `cache.Remove`.
 * `txsMap` (key ↦ list element): elements are identified by their arrival
-  number `id` (the `*clist.CElement`).  `addTx` OVERWRITES the entry of an
-  equal key; `removeTx` deletes the entry of the key whichever element it
-  pointed to.  Nothing in `resCbFirstTime` consults `txsMap`, so a tx whose key
-  was evicted from the cache is added a second time (finding `dup-tx`).
+  number `id` (the `*clist.CElement`).  `addTx` stores (overwrites) the entry
+  of the key; `removeTx` deletes the entry of the key.  Since the fix
+  "mempool never adds a second copy of a tx whose cache entry was evicted",
+  `resCbFirstTime` consults `txsMap` before `addTx`: an app-accepted tx whose
+  key is already mapped is NOT added again (result `present`; the cache keeps
+  the freshly pushed key).  The cache is bounded and also holds committed
+  txs, so it can forget a pooled key — `txsMap`, not the cache, is what
+  excludes duplicates.
 * `Update` (l.529): per committed tx: valid ⇒ `cache.Push`, invalid ⇒
   `cache.Remove`; then `txsMap.Load` ⇒ `removeTx(…, false)`; then, if the pool
   is non-empty and `config.Recheck`, `recheckTxs` (l.588): every remaining tx
@@ -98,7 +103,7 @@ def removeTx (s : State) (x : Tx) (id : Nat) (fromCache : Bool) : State :=
 
 /-! ### CheckTx -/
 
-inductive CheckRes | full | tooLarge | inCache | added | rejected
+inductive CheckRes | full | tooLarge | inCache | present | added | rejected
   deriving Repr, DecidableEq
 
 def checkTx (s : State) (x : Tx) (appOk : Bool) (gas : Int) : State × CheckRes :=
@@ -111,6 +116,9 @@ def checkTx (s : State) (x : Tx) (appOk : Bool) (gas : Int) : State × CheckRes 
     if p.2 = false then
       ({ s with cache := p.1 }, .inCache)
     else if appOk then
+      if (mapLoad s.txsMap x).isSome then
+        ({ s with cache := p.1 }, .present)        -- already pooled: only the sender is recorded
+      else
       let m : MemTx := { id := s.nextId, tx := x, gas := gas, height := s.height }
       ({ s with cache := p.1, txs := s.txs ++ [m], txsMap := mapStore s.txsMap x s.nextId,
                 txsBytes := s.txsBytes + (x.length : Int), nextId := s.nextId + 1 }, .added)
